@@ -1085,6 +1085,120 @@ theorem write_shared_interleave (cfg : WriteCfg) (p : List Bool) (A B : List Ite
   rw [this]
   exact ⟨rfl, rfl⟩
 
+/-! ## 4e. Adversary round: the selection by `output.filetype` is exact; reference semantics of an unselected value
+
+Sentences of the property: "yield every value they do not select as the very same object" — for `RenderLaTeX`,
+`LaTeXToPDF`, `PDFToPNG` *not selected* is: `context.output.filetype` is not the string `"csv"` / `"tex"` / `"pdf"`
+(a dictionary or a list that contains the word, another spelling, the word at another place of the context do not
+select: `…_passes_unless_filetype_is_…`); and "unchanged": under Python's reference semantics (`sharedStep`) an
+unselected value changes the content of no context object (`shared_unselected_untouched`), whatever the flow values
+share. -/
+
+/-- the selection tests that compare `context.output.filetype` with a word are exact: selected iff the entry IS
+that string -/
+theorem filetype_sel_iff (v : Item) (w : String) :
+    hasStrAt v.dict ["output", "filetype"] w = true ↔
+      docGet (.dict v.dict) ["output", "filetype"] = some (.str w) := by
+  unfold hasStrAt
+  cases h : docGet (.dict v.dict) ["output", "filetype"] with
+  | none => simp
+  | some x => cases x <;> simp
+
+theorem png_passes_unless_filetype_is_pdf (cfg : PngCfg) (fs : FS) (v : Item)
+    (h : docGet (.dict v.dict) ["output", "filetype"] ≠ some (.str "pdf")) : pngStep cfg fs v = pass fs v := by
+  apply png_passes_doc cfg fs v
+  cases hs : pngDoc v
+  · rfl
+  · exact absurd ((filetype_sel_iff v "pdf").1 hs) h
+
+theorem render_passes_unless_filetype_is_csv (cfg : RenderCfg) (hd : cfg.selectData = none) (s : σ) (v : Item)
+    (h : docGet (.dict v.dict) ["output", "filetype"] ≠ some (.str "csv")) : renderStep cfg s v = pass s v := by
+  apply render_passes_doc cfg hd s v
+  cases hs : renderDoc v
+  · rfl
+  · exact absurd ((filetype_sel_iff v "csv").1 hs) h
+
+theorem pdf_passes_unless_filetype_is_tex (ow : Bool) (sch : Sched) (st : PdfSt) (v : Item)
+    (h : docGet (.dict v.dict) ["output", "filetype"] ≠ some (.str "tex")) :
+    (pdfStep ow sch st v).out = (popReturned sch st.iter st.fs st.pool).2.1 ++ [.pass v] ∧
+    (pdfStep ow sch st v).err = none := by
+  apply pdf_unselected_step
+  rw [pdfSel_eq_doc]
+  cases hs : pdfDoc v
+  · rfl
+  · exact absurd ((filetype_sel_iff v "tex").1 hs) h
+
+theorem Heap.get_set (h : Heap) (k t : Tok) (d : Dict) :
+    (h.set k d).get t = if k = t then some d else h.get t := by
+  induction h with
+  | nil => simp [Heap.set, Heap.get]
+  | cons p r ih =>
+    obtain ⟨t', d'⟩ := p
+    simp only [Heap.set]
+    by_cases h1 : t' = k
+    · subst h1
+      simp only [if_true, Heap.get]
+      by_cases h2 : t' = t <;> simp [h2]
+    · simp only [h1, if_false, Heap.get, ih]
+      by_cases h2 : t' = t
+      · subst h2; simp; intro h3; exact absurd h3.symm h1
+      · simp [h2]
+
+/-- **Reference semantics: an unselected value leaves every context object as it is**: the step yields the value as
+the program sees it, raises nothing, leaves the state (file system) alone, and every object of the heap keeps its
+content — the only new entry the heap can get is the value's own context with the content it came with; the
+value itself looks afterwards as it looked before.  (No locality hypothesis.) -/
+theorem shared_unselected_untouched (f : σ → Item → Step σ Item) (sel : Item → Bool) (hp : Passes f sel)
+    (s : σ) (h : Heap) (v : Item) (hv : sel (v.refresh h) = false) :
+    (sharedStep f (s, h) v).out = [v.refresh h] ∧ (sharedStep f (s, h) v).err = none ∧
+    (sharedStep f (s, h) v).st.1 = s ∧
+    (∀ t, (sharedStep f (s, h) v).st.2.get t = h.get t ∨
+      (h.get t = none ∧ ∃ c, v.ctx = some c ∧ c.tok = t ∧ (sharedStep f (s, h) v).st.2.get t = some c.d)) ∧
+    (v.refresh (sharedStep f (s, h) v).st.2) = v.refresh h := by
+  have hf := hp s (v.refresh h) hv
+  obtain ⟨tok, data, ctx⟩ := v
+  cases ctx with
+  | none =>
+    simp [sharedStep, Item.refresh, pass, Heap.record] at hf ⊢
+    simp [hf]
+  | some c =>
+    obtain ⟨ct, cd⟩ := c
+    cases hg : h.get ct with
+    | none =>
+      have hr : Item.refresh h ⟨tok, data, some ⟨ct, cd⟩⟩ = ⟨tok, data, some ⟨ct, cd⟩⟩ := by
+        simp [Item.refresh, hg]
+      rw [hr] at hf
+      cases ct with
+      | src n =>
+        simp only [sharedStep, hr, hf, pass, Heap.record, List.foldl_cons, List.foldl_nil]
+        refine ⟨trivial, trivial, trivial, ?_, ?_⟩
+        · intro t
+          rw [Heap.get_set]
+          by_cases ht : Tok.src n = t
+          · right; subst ht; simp [hg]
+          · left; simp [ht]
+        · simp [Item.refresh, Heap.get_set]
+      | made p k =>
+        simp only [sharedStep, hr, hf, pass, Heap.record, List.foldl_cons, List.foldl_nil]
+        exact ⟨trivial, trivial, trivial, fun t => Or.inl trivial, trivial⟩
+    | some d =>
+      have hr : Item.refresh h ⟨tok, data, some ⟨ct, cd⟩⟩ = ⟨tok, data, some ⟨ct, d⟩⟩ := by
+        simp [Item.refresh, hg]
+      rw [hr] at hf
+      cases ct with
+      | src n =>
+        simp only [sharedStep, hr, hf, pass, Heap.record, List.foldl_cons, List.foldl_nil]
+        refine ⟨trivial, trivial, trivial, ?_, ?_⟩
+        · intro t
+          rw [Heap.get_set]
+          by_cases ht : Tok.src n = t
+          · left; subst ht; simp [hg]
+          · left; simp [ht]
+        · simp [Item.refresh, Heap.get_set]
+      | made p k =>
+        simp only [sharedStep, hr, hf, pass, Heap.record, List.foldl_cons, List.foldl_nil]
+        exact ⟨trivial, trivial, trivial, fun t => Or.inl trivial, trivial⟩
+
 /-! ## 5. Non-vacuity: concrete instances of the hypotheses and of the runs -/
 
 section examples
@@ -1251,6 +1365,29 @@ example : (mapBinsRun (fun k => k == .vec) (cellInnerApply .dup) true () [exHist
 -- `write_shared_interleave`: `Local (merge p A B)` and `Local A` hold for values with contexts of their own
 example : Local (merge [false, true] [exSharedA] [exOwnB]) ∧ Local [exSharedA] :=
   ⟨local_of_localB _ (by decide), local_of_localB _ (by decide)⟩
+
+/-- a dictionary with the key `pdf` under `output.filetype` -/
+def exNearMiss : Item :=
+  ⟨.src 0, .str "p1.pdf", some ⟨.src 1, [("output", .dict [("filetype", .dict [("pdf", .bool true), ("png", .bool true)])])]⟩⟩
+example : pngStep ⟨"png", false⟩ exFS exNearMiss = pass exFS exNearMiss :=
+  png_passes_unless_filetype_is_pdf _ _ _ (by simp [exNearMiss, Item.dict, docGet, lookup])
+example : pdfDoc exNearMiss = false ∧ renderDoc exNearMiss = false ∧ pngDoc exNearMiss = false := by
+  simp [pdfDoc, renderDoc, pngDoc, hasStrAt, exNearMiss, Item.dict, docGet, lookup]
+-- `shared_unselected_untouched`: a value `Write` does not select, met with an empty heap and with a heap that
+-- holds another content for its context object
+example : writeSel (exNoWrite.refresh []) = false := by decide
+example : exNoWrite.refresh (sharedStep (writeStep exCfg) (exFS, []) exNoWrite).st.2 = exNoWrite.refresh [] :=
+  (shared_unselected_untouched (writeStep exCfg) writeSel (write_passes exCfg) exFS [] exNoWrite (by decide)).2.2.2.2
+-- a bare generator is not a group (`mapGroup_passes`); a histogram of `(data, context)` bins whose context forbids
+-- the conversion is not selected by `HistToGraph` (`histToGraph_passes_doc`)
+def exGen : Item := ⟨.src 0, .other "generator" 0 true, none⟩
+def exGenCtx : Item := ⟨.src 2, .other "generator" 0 true, some ⟨.src 3, [("foo", .int 1)]⟩⟩
+example : mapGroupSel exGen = false ∧ mapGroupSel exGenCtx = false := by decide
+def exPairBinsOff : Item :=
+  ⟨.src 0, .hist ⟨1, 1, [2], .pair⟩, some ⟨.src 1, [("histogram", .dict [("to_graph", .bool false)])]⟩⟩
+example : histToGraphDoc exPairBinsOff = false := by decide
+example : histToGraphStep ⟨.default, 2, false⟩ () exPairBinsOff = pass () exPairBinsOff :=
+  histToGraph_passes_doc _ () _ (by decide)
 
 end examples
 
